@@ -148,14 +148,18 @@ def native_eval(clause, env, pre_env=None):
     src = clause.strip()
     if src.startswith("lemma:"):
         src = src[6:].strip()
-    if pre_env is None or "old(" not in src:
+    if (pre_env is None or "old(" not in src) and "implies(" not in src:
         return eval(src, env)
     tree = _ast.parse(src, mode="eval")
     olds = {}
 
     class R(_ast.NodeTransformer):
         def visit_Call(self, node):
-            if isinstance(node.func, _ast.Name) and node.func.id == "old" and len(node.args) == 1:
+            if isinstance(node.func, _ast.Name) and node.func.id == "implies" and len(node.args) == 2 and not node.keywords:
+                # implies(a, b) is lazy in the proof (b is evaluated under the guard a): natively `(not a) or b`
+                a, b = self.visit(node.args[0]), self.visit(node.args[1])
+                return _ast.copy_location(_ast.BoolOp(op=_ast.Or(), values=[_ast.UnaryOp(op=_ast.Not(), operand=a), b]), node)
+            if pre_env is not None and isinstance(node.func, _ast.Name) and node.func.id == "old" and len(node.args) == 1:
                 name = "_old_%d" % len(olds)
                 olds[name] = eval(compile(_ast.Expression(body=node.args[0]), "<old>", "eval"), pre_env)
                 return _ast.copy_location(_ast.Name(id=name, ctx=_ast.Load()), node)
